@@ -58,3 +58,39 @@ pub fn publication_builtin_topic_data(
         representation: qos.representation.clone(),
     }
 }
+
+/// Builds a `SubscriptionBuiltinTopicData` (fields are crate-private) from a reader QoS.
+pub fn subscription_builtin_topic_data(
+    key: [u8; 16],
+    participant_key: [u8; 16],
+    topic_name: &str,
+    type_name: &str,
+    qos: &crate::infrastructure::qos::DataReaderQos,
+    subscriber_qos: &crate::infrastructure::qos::SubscriberQos,
+) -> crate::builtin_topics::SubscriptionBuiltinTopicData {
+    use crate::builtin_topics::{BuiltInTopicKey, SubscriptionBuiltinTopicData};
+    SubscriptionBuiltinTopicData {
+        key: BuiltInTopicKey { value: key },
+        participant_key: BuiltInTopicKey {
+            value: participant_key,
+        },
+        topic_name: alloc::string::String::from(topic_name).into(),
+        type_name: alloc::string::String::from(type_name).into(),
+        type_information: None,
+        durability: qos.durability.clone(),
+        deadline: qos.deadline.clone(),
+        latency_budget: qos.latency_budget.clone(),
+        liveliness: qos.liveliness.clone(),
+        reliability: qos.reliability.clone(),
+        ownership: qos.ownership.clone(),
+        destination_order: qos.destination_order.clone(),
+        user_data: qos.user_data.clone(),
+        time_based_filter: qos.time_based_filter.clone(),
+        presentation: subscriber_qos.presentation.clone(),
+        partition: subscriber_qos.partition.clone(),
+        topic_data: Default::default(),
+        group_data: subscriber_qos.group_data.clone(),
+        representation: qos.representation.clone(),
+        type_consistency: qos.type_consistency.clone(),
+    }
+}
